@@ -25,7 +25,8 @@ func init() {
 			"(8) an empty value is not a tombstone; the sstable iterator does not re-lock its own mutex; " +
 			"(9) block.NewReader keeps the slice it is given, so every caller hands over freshly allocated bytes; the decoder's sanity limits on key lengths are not below the 16-bit format maximum; " +
 			"(10) seek landing, structural part: the restart search of block.Iterator.Seek is classified by the update table of one iteration (lower-bound / floor) and a lower-bound search must examine the interval before the restart point it found; the index stores each block's FIRST key, so the index seek must step back to the last entry <= target — BOTH VIOLATED on this tree (recorded findings, demo in findings_demos/). " +
-			"Added after blind round 5: the temporary file of a table is named after the table's own file name.",
+			"Added after blind round 5: the temporary file of a table is named after the table's own file name. " +
+			"Added after blind round 6: the block checksum is computed last and covers everything but itself on both sides (the restart count steers decoding); every *block.Iterator stored anywhere in pkg/sstable is made on the spot by block.Reader.Iterator(), which returns a fresh allocation (table iterators never share a cursor).",
 		NotDecided: "DECLARED UNDECIDED: that forward iteration yields every entry exactly once (decodeCurrent does not advance the cursor, so a raw per-file scan delivers the first entry of a block twice; the merging iterators hide it) and the exact landing position of Seek beyond the two structural conditions of (10) (e.g. what Seek answers at the end of a block). Also not decided: point-lookup completeness for all data sets, behaviour under arbitrary corruption.",
 		Rules:      []func(*Ctx, *Reporter){ruleFooterCodec, ruleIndexEntryCodec, ruleBlockEntryTrace, ruleBlockTrailer, ruleSstChecksums, ruleBloomKey, ruleBloomSiblings, ruleBuilderStrictOrder, ruleIndexFirstKey, ruleNoNarrowArithmetic, ruleEmptyNotDeleted, ruleTombstoneMarker, ruleSstReentrancy, ruleRetainedBuffersAreFresh, ruleReaderLimitsCoverFormat, ruleBlockSeekInterval, ruleIndexSeekAgreement, ruleTempFilePerTable, ruleBlockChecksumCoverage, ruleIteratorsOwnCursors},
 	})
@@ -509,7 +510,17 @@ func ruleBlockTrailer(c *Ctx, r *Reporter) {
 	var widths []int64
 	AllInstrs(finish, false, func(_ *ssa.Function, ins ssa.Instruction) {
 		call, ok := ins.(*ssa.Call)
-		if !ok || staticName(call) != "encoding/binary.Write" {
+		if !ok {
+			return
+		}
+		if staticName(call) == "(*bytes.Buffer).Write" && len(call.Call.Args) == 2 {
+			// buffer.Write(tail[:]) with a fixed-size array filled by PutUintNN: a field of that width
+			if n := fixedArraySliceLen(call.Call.Args[1]); n > 0 {
+				widths = append(widths, n)
+			}
+			return
+		}
+		if staticName(call) != "encoding/binary.Write" {
 			return
 		}
 		if mi, ok := call.Call.Args[2].(*ssa.MakeInterface); ok {
@@ -907,4 +918,20 @@ func ruleNoNarrowArithmetic(c *Ctx, r *Reporter) {
 	if n == 0 {
 		r.OK("codec arithmetic", "-", "no 8/16-bit arithmetic in pkg/sstable/** and pkg/wal")
 	}
+}
+
+// fixedArraySliceLen: v is arr[:] of a local fixed-size byte array: its length; 0 otherwise.
+func fixedArraySliceLen(v ssa.Value) int64 {
+	sl, ok := v.(*ssa.Slice)
+	if !ok || sl.Low != nil || sl.High != nil {
+		return 0
+	}
+	al, ok := sl.X.(*ssa.Alloc)
+	if !ok {
+		return 0
+	}
+	if at, ok := al.Type().Underlying().(*types.Pointer).Elem().Underlying().(*types.Array); ok {
+		return at.Len()
+	}
+	return 0
 }
